@@ -562,6 +562,10 @@ func (f *vpFS) Truncate(name string, size int64) error {
 }
 
 func (n *vpNode) setSize(size int64) {
+	if n.hasData && size > 32 {
+		// content is only modelled for small files
+		n.hasData, n.data = false, nil
+	}
 	if n.hasData {
 		sz := vpConcreteInt(int(size))
 		if sz <= len(n.data) {
@@ -661,7 +665,13 @@ func (h *vpFile) WriteAt(b []byte, off int64) (int, error) {
 		return 0, vpErr("writeat", h.path, syscall.EINVAL)
 	}
 	n := h.node
+	if len(b) == 0 {
+		return 0, nil // a zero-length pwrite never extends the file
+	}
 	end := off + int64(len(b))
+	if n.hasData && end > 32 {
+		n.hasData, n.data = false, nil
+	}
 	if n.hasData {
 		o := vpConcreteInt(int(off))
 		e := o + len(b)
